@@ -92,6 +92,8 @@ class Workload(object):
         self.enc_mod, self.dec_mod, self.enc_opts = U.codec(self.codec_name)
         if w.get('decoder'):
             self.dec_mod = U.decoder_module(w['decoder'])
+        prev_style = U.STYLE[0]
+        U.STYLE[0] = w.get('style')
         try:
             self.schema = U.build_schema(self.desc)
             if hasattr(self.schema, 'tagMap'):
@@ -99,6 +101,8 @@ class Workload(object):
             problem = U.schema_problem(self.schema)
         except Exception as e:   # postponed schema errors: generator's fault, not the library's
             raise Skip('schema-build:%s' % type(e).__name__)
+        finally:
+            U.STYLE[0] = prev_style
         if problem:
             raise Skip('schema-ill-formed:%s' % problem.split(':')[0])
         self.values = []
